@@ -531,7 +531,7 @@ Lemma exec_node_S : forall (f : nat) (st : mstate) (n : node), exec_node (S f) s
                                     match compile_file se f iname (ms_g st2) with
                                     | Ok (t, g') => exec_template f (mkM (ms_frames st2) (ms_nodes st2) g') t ictx
                                     | Err 4 =>
-                                        if ifexists
+                                        if ifexists && negb (served (se_loaders se) iname)
                                         then xok [] (mkM (ms_frames st2) (ms_nodes st2) (log_misses (se_loaders se) iname (ms_g st2)))
                                         else ([], Err 4)
                                     | other => xfail [] other
